@@ -16,6 +16,7 @@ uint32_t G_CB_N, G_CB_CODE; uint16_t G_CB_IDX; uint8_t G_CB_SUB; CO_CSDO *G_CB_C
 static void vw_csdo_cb(CO_CSDO *c, uint16_t idx, uint8_t sub, uint32_t code) { G_CB_N++; G_CB_CSDO = c; G_CB_IDX = idx; G_CB_SUB = sub; G_CB_CODE = code; G_CB_STATE = c->State; }
 uint32_t G_TXN; CO_IF_FRM G_TXF; int16_t H_TXRES;
 int16_t COIfCanSend(CO_IF *cif, CO_IF_FRM *frm) { __CPROVER_assert(cif == &V_NODE.If && frm != 0, "COIfCanSend requires"); G_TXN++; G_TXF = *frm; return H_TXRES; }
+_Bool G_NOTMR;      /* history ghost: the timer manager refused the timeout action of the running transfer (pool exhausted) */
 uint32_t G_LIVE, G_BAD_DEL, N_TDEL, N_TCRE, N_TICKS, C_START, C_CYCLE, H_TICKS, A_TIME; int16_t G_LIVE_ID, H_TID; void *C_PARA; CO_TMR_FUNC C_FUNC;
 int16_t COTmrDelete(CO_TMR *tmr, int16_t actId)
 {
@@ -31,7 +32,7 @@ int16_t COTmrCreate(CO_TMR *tmr, uint32_t s, uint32_t c, CO_TMR_FUNC f, void *p)
     __CPROVER_assert(tmr == &V_NODE.Tmr, "COTmrCreate requires");
     N_TCRE++; C_START = s; C_CYCLE = c; C_FUNC = f; C_PARA = p;
     __CPROVER_assume(H_TID >= -1);
-    if (H_TID >= 0) { G_LIVE++; G_LIVE_ID = H_TID; }
+    if (H_TID >= 0) { G_LIVE++; G_LIVE_ID = H_TID; G_NOTMR = 0; } else { G_NOTMR = 1; }
     return H_TID;
 }
 uint32_t COTmrGetTicks(CO_TMR *tmr, uint16_t time, uint32_t unit) { __CPROVER_assert(unit == 1000, "SDO timeouts are milliseconds"); N_TICKS++; A_TIME = time; return H_TICKS; }
@@ -53,7 +54,7 @@ static void vw_csdo_build(void)
         __CPROVER_assume((unsigned)C->Tfer.Type >= 1 && (unsigned)C->Tfer.Type <= 4);
         __CPROVER_assume((H_SIZE <= 4) == (C->Tfer.Type == CO_CSDO_TRANSFER_UPLOAD || C->Tfer.Type == CO_CSDO_TRANSFER_DOWNLOAD));
         __CPROVER_assume(C->Tfer.Buf_Idx <= H_SIZE && C->Tfer.TBit <= 1 && C->Tfer.Tmr >= -1);
-        if (C->Tfer.Tmr >= 0) { G_LIVE = 1; G_LIVE_ID = C->Tfer.Tmr; }
+        if (C->Tfer.Tmr >= 0) { G_LIVE = 1; G_LIVE_ID = C->Tfer.Tmr; G_NOTMR = 0; } else { G_NOTMR = 1; }
     } else {
         C->Tfer.Buf = 0; C->Tfer.Call = 0; C->Tfer.Tmr = -1; C->Tfer.Type = CO_CSDO_TRANSFER_NONE;
     }
@@ -65,7 +66,8 @@ static _Bool wf_csdo(void)
     if (C->State == CO_CSDO_STATE_BUSY) {
         return C->Tfer.Buf == V_UBUF && C->Tfer.Size == H_SIZE && C->Tfer.Call == vw_csdo_cb && (unsigned)C->Tfer.Type >= 1 && (unsigned)C->Tfer.Type <= 4 &&
                ((H_SIZE <= 4) == (C->Tfer.Type == CO_CSDO_TRANSFER_UPLOAD || C->Tfer.Type == CO_CSDO_TRANSFER_DOWNLOAD)) &&
-               C->Tfer.Buf_Idx <= H_SIZE && C->Tfer.TBit <= 1 && C->Tfer.Tmr >= -1 && G_LIVE == (C->Tfer.Tmr >= 0 ? 1u : 0u) && (C->Tfer.Tmr < 0 || G_LIVE_ID == C->Tfer.Tmr);
+               C->Tfer.Buf_Idx <= H_SIZE && C->Tfer.TBit <= 1 && C->Tfer.Tmr >= -1 && G_LIVE == (C->Tfer.Tmr >= 0 ? 1u : 0u) && (C->Tfer.Tmr < 0 || G_LIVE_ID == C->Tfer.Tmr) &&
+               (C->Tfer.Tmr >= 0 || G_NOTMR);      /* a running transfer is supervised by its timeout action unless the timer manager refused it */
     }
     /* INVALID / IDLE: nothing of a transfer is left: no owned timer, no id that could later delete a foreign timer, no callback */
     return C->Tfer.Tmr == -1 && G_LIVE == 0 && C->Tfer.Call == 0 && C->Tfer.Type == CO_CSDO_TRANSFER_NONE && C->Frm == 0;
